@@ -1,4 +1,5 @@
 pub mod benc;
 pub mod common;
 pub mod props;
+pub mod sim;
 pub mod space;
